@@ -154,6 +154,19 @@ impl<'a> DepGraph<'a> {
         self.currents.pop();
     }
 
+    /// Marks the bindings which are evaluated as a part of evaluating the current expression as
+    /// used (stopping at the innermost closure as its body is only evaluated if it is called)
+    fn mark_current_used(&mut self) {
+        for window in self
+            .currents
+            .windows(2)
+            .rev()
+            .take_while(|t| t[1].0 == BindType::Expr)
+        {
+            self.graph.add_edge(window[0].1, window[1].1, ());
+        }
+    }
+
     fn add_node(&mut self, scope: Scope<'a>) -> petgraph::graph::NodeIndex {
         let Self {
             symbol_map, graph, ..
@@ -257,15 +270,12 @@ impl<'e> Visitor<'e, 'e> for DepGraph<'e> {
                 None
             }
 
-            Expr::Call(Expr::Ident(id, ..), ..) if !id.name.as_str().starts_with('#') => {
-                for window in self
-                    .currents
-                    .windows(2)
-                    .rev()
-                    .take_while(|t| t[1].0 == BindType::Expr)
-                {
-                    self.graph.add_edge(window[0].1, window[1].1, ());
-                }
+            // Any call except a builtin operator (`#Int+` etc) may fail or have side effects so
+            // the bindings that evaluate it must be kept even if their values are unused
+            Expr::Call(f, ..)
+                if !matches!(f, Expr::Ident(id, ..) if id.name.as_str().starts_with('#')) =>
+            {
+                self.mark_current_used();
                 walk_expr(self, expr);
                 None
             }
@@ -319,6 +329,8 @@ impl<'e> Visitor<'e, 'e> for DepGraph<'e> {
                 }) {
                     let current = self.currents.last().unwrap().1;
                     self.graph.add_edge(current, scrutinee_id, ());
+                    // A refutable match may fail so the bindings evaluating it must be kept
+                    self.mark_current_used();
                 }
 
                 for alt in *alts {
